@@ -76,6 +76,11 @@ def generate(rng, index: int, tier: str) -> dict:
         t_s = rng.choice([1.0, 2.5])
         tl = [{"at": 0.0, "op": "user.open"}, {"at": t_s, "op": "user.hb_start", "interval": interval, "timeout": timeout},
               {"at": 0.0, "op": "console.script", "kind": "version_request", "actions": acts}]
+        if rng.random() < 0.4:
+            # the manager object exists long before monitoring starts: the first window still counts from start()
+            t_s = rng.choice([timeout * 0.5, timeout + 5.0, 2.5 * timeout])
+            tl[1] = {"at": t_s, "op": "user.hb_start", "interval": interval, "timeout": timeout, "created_earlier": True}
+            tl.append({"at": 0.25, "op": "user.hb_start", "interval": interval, "timeout": timeout, "create_only": True})
         scale = interval / 300.0
         acts2 = [a if not isinstance(a, list) else ["late", a[1] * scale] for a in acts]
         tl[2]["actions"] = acts2
@@ -85,12 +90,14 @@ def generate(rng, index: int, tier: str) -> dict:
     else:
         interval, timeout = 300.0, 330.0
         inst = refconsole.default_installation(gen)
-        tl = [{"at": 0.0, "op": "console.script", "kind": "version_request", "actions": ["prompt"] + acts}, {"at": 0.0, "op": "user.init"}]
-        end = (n + 2) * interval + timeout + 10.0
+        # the API object exists from t = 0; init() may be called much later - monitoring starts when initialisation completes
+        t_init = rng.choice([0.0, 0.0, 0.0, 60.0, 400.0])
+        tl = [{"at": 0.0, "op": "console.script", "kind": "version_request", "actions": ["prompt"] + acts}, {"at": t_init, "op": "user.init"}]
+        end = t_init + (n + 2) * interval + timeout + 10.0
         info = {"bare": False, "interval": interval, "timeout": timeout, "style": style}
         sc = {"gen": gen, "mode": "api", "installation": inst, "knobs": knobs, "timeline": tl, "end": end, "info": info}
     if blocked:
-        first = (t_s if bare else 0.1)
+        first = (t_s if bare else t_init + 0.1)
         t_stall = first + n_prompt * interval + interval / 2
         t_deadline = first + (n_prompt * interval if n_prompt else 0.0) + timeout
         x = rng.choice([5.0, 29.0, 31.0, 60.0, 100.0])
@@ -99,14 +106,14 @@ def generate(rng, index: int, tier: str) -> dict:
         sc["info"]["blocked_dead_link"] = x
         sc["end"] = max(sc["end"], t_deadline + x + timeout + interval + 10.0)
     elif rng.random() < 0.25:
-        t_b = G.pick_time(rng, 5.0 if not bare else 3.0, end * 0.6, anchors=[interval, 2 * interval, timeout])
+        t_b = G.pick_time(rng, (t_init + 5.0) if not bare else t_s + 0.5, end * 0.6, anchors=[interval, 2 * interval, timeout])
         sc["timeline"].append({"at": t_b, "op": "net.blackhole", "on": True})
         sc["info"]["blackhole_at"] = t_b
         if rng.random() < 0.5:
             sc["timeline"].append({"at": t_b + timeout + interval + 5.0, "op": "net.blackhole", "on": True})
     elif rng.random() < 0.25:
         # an outage that spans a heartbeat tick: FIN shortly before the tick, reconnect shortly after it
-        first = (t_s if bare else 0.1)
+        first = (t_s if bare else t_init + 0.1)
         k = rng.randint(1, max(1, n - 1))
         delta = rng.choice([0.25, 0.5])
         t_f = first + k * interval - delta
